@@ -83,7 +83,7 @@ def check_single(A, v, Qd, Td, m, tol, dt, kdim, detectable, K=None, spec=None, 
         elif c > exp:
             if detectable and c <= cap:
                 out.append(("column_count", f"{c} columns, expected min(max_iters, n, KDim) = {exp} (KDim={kdim})",
-                            {"excess": "more"}))
+                            {"excess": "more", "start_in_nullspace": bool(getattr(hs, "scale", sA) <= 1e-8 * sA)}))
             ce = exp
     ce = min(ce, cap)
     Q, T = Qd[:, :ce].astype(np.complex128), Td[:ce, :ce].astype(np.complex128)
